@@ -1,1 +1,15 @@
-From LC Require Export Val.
+From LC Require Export Val Crash.
+Open Scope N_scope.
+
+Fixpoint ins_n (x : N) (l : list N) : list N :=
+  match l with [] => [x] | y :: tl => if x <=? y then x :: l else y :: ins_n x tl end.
+Definition sortN (l : list N) : list N := fold_right ins_n [] l.
+Fixpoint ins_rec (x : N * N * list N) (l : list (N * N * list N)) : list (N * N * list N) :=
+  match l with [] => [x] | y :: tl => if fst (fst x) <=? fst (fst y) then x :: l else y :: ins_rec x tl end.
+
+Definition cstate_val (st : cstate) : val :=
+  VL [vlist (fun s => VL [VN (fst s); VN (snd s)]) (cs_scripts st); VN (cs_min st);
+      vlist (fun r => VL [VN (fst (fst r)); VN (snd (fst r)); vlist VN (sortN (snd r))]) (fold_right ins_rec [] (cs_records st));
+      vlist VN (sortN (cs_indexed st))].
+
+Definition run_prefixes (st : cstate) (ws : list cwrite) : val := vlist cstate_val (prefix_states st ws).
